@@ -1177,10 +1177,9 @@ def _trivial_getters(cls) -> dict:
     for name, m in cls.methods.items():
         if m.kind != "property":
             continue
-        body = body_without_docstring(m.node)
-        if len(body) == 1 and isinstance(body[0], ast.Return) and isinstance(body[0].value, ast.Attribute) \
-                and isinstance(body[0].value.value, ast.Name) and body[0].value.value.id == "self":
-            f = body[0].value.attr
+        from .srcmodel import getter_field
+        f = getter_field(m.node)
+        if f is not None:
             if f in out:
                 dup.add(f)
             out[f] = name
